@@ -912,6 +912,72 @@ func ruleC17Window(c *Ctx, r *Rep) {
 					return true
 				})
 			}
+			// accepted: the count is a local that starts at a constant, only grows inside a loop whose condition holds a
+			// running position below the position the YAML decoder reported for the node it has just decoded (X.Index
+			// with X a Node of the YAML dependency), and is otherwise only decremented
+			for _, a := range call.Args {
+				id, ok := unparen(a).(*ast.Ident)
+				if !ok {
+					continue
+				}
+				o := info.Uses[id]
+				if o == nil {
+					continue
+				}
+				bounded, other := false, false
+				walkStack(fd.Body, func(d ast.Node, st []ast.Node) bool {
+					writes := false
+					switch x := d.(type) {
+					case *ast.AssignStmt:
+						for i, l := range x.Lhs {
+							if lid, ok := l.(*ast.Ident); ok && info.ObjectOf(lid) == o {
+								if x.Tok == token.DEFINE && i < len(x.Rhs) {
+									if _, isConst := constInt(info, x.Rhs[i]); isConst {
+										continue
+									}
+								}
+								if x.Tok == token.SUB_ASSIGN {
+									continue
+								}
+								writes = true
+							}
+						}
+					case *ast.IncDecStmt:
+						if lid, ok := x.X.(*ast.Ident); ok && info.ObjectOf(lid) == o && x.Tok == token.INC {
+							writes = true
+						}
+					}
+					if !writes {
+						return true
+					}
+					inLoop := false
+					for i := len(st) - 1; i >= 0; i-- {
+						fs, ok := st[i].(*ast.ForStmt)
+						if !ok || fs.Cond == nil {
+							continue
+						}
+						if mentions(fs.Cond, func(e ast.Expr) bool {
+							se, ok := e.(*ast.SelectorExpr)
+							if !ok || se.Sel.Name != "Index" {
+								return false
+							}
+							nt, ok := info.TypeOf(se.X).(*types.Named)
+							return ok && nt.Obj().Name() == "Node" && isYAMLPkg(nt.Obj().Pkg())
+						}) {
+							inLoop = true
+						}
+					}
+					if inLoop {
+						bounded = true
+					} else {
+						other = true
+					}
+					return true
+				})
+				if bounded && !other {
+					dep = true
+				}
+			}
 			// accepted: control-dependent on the decoder having reported EOF
 			eof := false
 			for i := len(stack) - 1; i >= 0; i-- {
@@ -923,7 +989,7 @@ func ruleC17Window(c *Ctx, r *Rep) {
 				}
 			}
 			if dep || eof {
-				r.OK(key, call.Pos(), "%s on the tee capture buffer is bounded by the decoder's InputOffset (%v) or happens after EOF (%v)", sel.Sel.Name, dep, eof)
+				r.OK(key, call.Pos(), "%s on the tee capture buffer is bounded by a position the decoder reported — json.Decoder.InputOffset, or the Index of the YAML node just decoded — (%v) or happens after EOF (%v)", sel.Sel.Name, dep, eof)
 			} else {
 				r.Bad(key, call.Pos(), "%s() on the tee capture buffer of a non-seekable input while decoding continues: the json.Decoder reads ahead, so the buffer also holds bytes it has not scanned yet; dropping them makes a later error position point outside the window (18 KB document then `{\"a\": 1,\\n \"b\": }` on a pipe: empty excerpt, misplaced caret; the same bytes from a file are reported correctly)", sel.Sel.Name)
 			}
